@@ -103,7 +103,7 @@ fn range_list_of(val: &Value) -> RangeList {
 
 /// The list named by a LocationListRef value (entries additionally carry raw
 /// expression bytes `d`; k may also be defloc).
-fn loc_list_of(val: &Value) -> LocationList {
+fn loc_list_of(val: &Value, entry_ref: &dyn Fn(&Value) -> DebugInfoRef) -> LocationList {
     let Some(list) = val["list"].as_array() else {
         let n = unbv(&val["v"]);
         let mut ex = Expression::new();
@@ -118,7 +118,17 @@ fn loc_list_of(val: &Value) -> LocationList {
         list.iter()
             .map(|e| {
                 let (a, b) = (unbv(&e["a"]), unbv(&e["b"]));
-                let data = Expression::raw(bytes_of(&e["d"]));
+                // "ref": the expression is the (one-byte) operations d followed by DW_OP_call_ref to an entry
+                let data = if e["ref"].is_null() {
+                    Expression::raw(bytes_of(&e["d"]))
+                } else {
+                    let mut ex = Expression::new();
+                    for b in bytes_of(&e["d"]) {
+                        ex.op(gimli::DwOp(b));
+                    }
+                    ex.op_call_ref(entry_ref(&e["ref"]));
+                    ex
+                };
                 match e["k"].as_str().expect("entry kind") {
                     "base" => Location::BaseAddress { address: Address::Constant(a) },
                     "opair" => Location::OffsetPair { begin: a, end: b, data },
@@ -175,7 +185,10 @@ impl Builder {
             "DebugInfoRefSup" => AttributeValue::DebugInfoRefSup(DebugInfoOffset(n as usize)),
             "LineProgramRef" => AttributeValue::LineProgramRef,
             "LocationListRef" => {
-                let list = loc_list_of(val);
+                let list = loc_list_of(val, &|r: &Value| {
+                    let tu = r["u"].as_u64().expect("ref unit") as usize - 1;
+                    DebugInfoRef::Entry(self.units[tu], self.entry(tu, &r["e"]))
+                });
                 let unit = self.dwarf.units.get_mut(self.units[u]);
                 AttributeValue::LocationListRef(unit.locations.add(list))
             }
@@ -654,7 +667,10 @@ fn replay_incremental(case: &Value, endian: RunTimeEndian) -> Value {
                                 AttributeValue::Exprloc(ex)
                             }
                             "RangeListRef" => AttributeValue::RangeListRef(unit.ranges.add(range_list_of(val))),
-                            "LocationListRef" => AttributeValue::LocationListRef(unit.locations.add(loc_list_of(val))),
+                            "LocationListRef" => AttributeValue::LocationListRef(unit.locations.add(loc_list_of(val, &|r: &Value| {
+                                let tu = r["u"].as_u64().expect("ref unit") as usize - 1;
+                                DebugInfoRef::Entry(uids[tu], ent(tu, &r["e"]))
+                            }))),
                             "FileIndex" => return json!({"ok": false, "stage": "unsupported-in-incremental"}),
                             _ => simple_value(val),
                         };
